@@ -32,6 +32,8 @@ impl Submissions {
         if shared.unsubmitted_submissions() >= len {
             return Err(QueueFull);
         }
+        #[cfg(a10_verif)]
+        crate::verif::sched_point(crate::verif::POINT_SQ_CHECKED);
 
         // Grab the submission lock.
         let submissions_guard = lock(&shared.submissions_lock);
@@ -69,6 +71,8 @@ impl Submissions {
         // here because we're holding the submission lock and thus are the only
         // ones writing to it (but other threads and the kernel can read it).
         let new_tail = tail.wrapping_add(1);
+        #[cfg(a10_verif)]
+        crate::verif::sched_point(crate::verif::POINT_SQ_TAIL_STORE);
         unsafe { (*shared.submissions_tail.as_ptr()).store(new_tail, Ordering::Release) }
 
         log::trace!(submission:?, index, tail, new_tail; "queueing submission");
@@ -147,6 +151,8 @@ impl Submissions {
     pub(crate) fn wait_for_submission(&self, waker: task::Waker) {
         log::trace!(waker:?; "adding future waiting on submission slot");
         let shared = &*self.shared;
+        #[cfg(a10_verif)]
+        crate::verif::sched_point(crate::verif::POINT_WAIT_FOR_SUBMISSION);
         lock(&shared.blocked_futures).push(waker);
     }
 
